@@ -212,11 +212,14 @@ def _integrate_over(expr: ast.AST, generators: Sequence[ast.comprehension]) -> a
 
             if step == 1:
                 upper -= 1
-            else:
-                n_steps = math.floor((upper - lower) / step)
+            elif lower.is_Integer and upper.is_Integer and step.is_Integer and step != 0:
+                # range(lower, upper, step) has ceil((upper - lower) / step) elements, if any
+                n_steps = max(0, math.ceil((upper - lower) / step))
                 lower = lower / step
-                upper = lower + n_steps
+                upper = lower + n_steps - 1
                 sym_expr = sym_expr.subs(integrand, step * integrand)
+            else:
+                raise ValueError("Cannot count the elements of a range with a step and unknown bounds")
 
             sym_expr = sympy.Sum(sym_expr, (integrand, lower, upper))
 
@@ -301,7 +304,11 @@ def simplify_math_iterators(source: str) -> str:
                 for node in core.walk(arg, ast.Call)
             ):
                 continue
-            yield node, _integrate_over(arg.elt, arg.generators)
+            try:
+                replacement = _integrate_over(arg.elt, arg.generators)
+            except (NotImplementedError, ValueError):
+                continue
+            yield node, replacement
 
 
 @processing.fix
